@@ -1,4 +1,5 @@
 """C07 - tokenization offsets: provenance and consistency of the two offset systems."""
+import re
 from .. import tree as T
 from .. import units as U
 from ..report import Finding
@@ -184,12 +185,192 @@ def run(ctx, res):
             res.add(Finding("C07.R4", fn, "early-return:" + T.render(r)[:60], "tokenize returns early with `%s`, bypassing the adjacent-Text merge" % T.render(r)[:80], loc=T.loc(r)))
     token_boundaries(ctx, res, "C07.R5")
     non_empty_tokens(ctx, res, "C07.R6")
+    merge_step(ctx, res, "C07.R7")
+    every_piece_kept(ctx, res, "C07.R8")
     # the char counter idiom
     cur = [k for k, v in res.extra["units_env"].items() if v == U.CH]
     if "current" in cur or cur:
         res.holds("C07.R3", fn, "char-counter", "counter(s) %s advance by literal 1 once per char_indices item" % cur)
     else:
         res.add(Finding("C07.R3", fn, "char-counter", "no character counter advancing by exactly 1 per character was found", loc=T.loc(b["tree"])))
+
+
+def merge_step(ctx, res, rule):
+    """`no two text tokens are adjacent` and `their texts concatenated reproduce the source`: the final pass over the scanned
+    tokens keeps every token, in order, except that a text token that follows a text token is joined to it - and joining
+    extends the earlier token to the later one's end (text re-sliced from the source, character end, byte end).  Decided by
+    interpreting one step of that pass for a symbolic accumulated list and token; also: the token that ends at the end of
+    the source is appended to the scanned tokens before the pass."""
+    from .. import absint as A
+    P = ctx.lib
+    b = P.fn("tokenizer::tokenize")
+    fn = fshort(b)
+    loc = T.loc(b["tree"])
+    folds = [n for n in T.nodes(b["tree"], "mcall") if n["name"] == "fold" and len(n["args"]) == 2 and T.peel(n["args"][1]).get("k") == "closure"
+             and re.match(r"^\w+\.into_iter\(\)$", T.render(n["recv"]))]
+    fors = [n for n in T.nodes(b["tree"], "for") if re.match(r"^\w+(\.into_iter\(\))?$", T.render(n["iter"])) and "Token" in (T.peel(n["iter"]).get("ty") or "")]
+    I = A.Interp(P)
+    I.lazy_locals = True
+    if len(folds) == 1:
+        clo = T.peel(folds[0]["args"][1])
+        src = T.local_of(T.peel(folds[0]["recv"])["recv"])
+        seed = folds[0]["args"][0]
+        if T.local_of(T.peel(seed)) is not None:      # `let merged = Vec::with_capacity(n); tokens.into_iter().fold(merged, ..)`
+            defs = [s_ for s_ in T.nodes(b["tree"], "let") if s_["pat"].get("p") == "bind" and s_["pat"]["id"] == T.local_of(T.peel(seed)) and s_.get("init") is not None]
+            uses = [x for x in T.nodes(b["tree"], "path") if T.local_of(x) == T.local_of(T.peel(seed))]
+            if len(defs) == 1 and len(uses) == 1:
+                seed = defs[0]["init"]
+        if T.render(seed) != "std::vec::Vec::new()":
+            res.add(Finding(rule, fn, "merge:seed", "the merging pass does not start from an empty list (`%s`)" % T.render(folds[0]["args"][0])[:60], loc=loc))
+
+        def run(J):
+            env = {}
+            acc = A.VecV([], base=A.Sym("ACC"))
+            if not J.match_pat(clo["params"][0]["pat"], acc, env) or not J.match_pat(clo["params"][1]["pat"], A.Sym("cur"), env):
+                raise A.Cannot("closure parameters")
+            return J.ev(clo["body"], env)
+    elif len(fors) == 1 and not folds:
+        loop = fors[0]
+        src = T.local_of(T.peel(loop["iter"]).get("recv") or loop["iter"])
+        blk = T.peel(b["tree"])
+        while blk.get("k") == "blockexpr":
+            blk = blk["block"]
+        acc_id = T.local_of(T.peel(blk["tail"])) if blk.get("tail") is not None else None
+        lets = [s_ for s_ in T.nodes(b["tree"], "let") if s_["pat"].get("p") == "bind" and s_["pat"]["id"] == acc_id and s_.get("init") is not None]
+        if acc_id is None or len(lets) != 1 or T.render(lets[0]["init"]) != "std::vec::Vec::new()":
+            res.cannot(rule, fn, "merge", "the list the merging loop fills (an empty list that is returned) was not found", loc)
+            return
+
+        def run(J):
+            env = {}
+            acc = A.VecV([], base=A.Sym("ACC"))
+            env[acc_id] = acc
+            if not J.match_pat(loop["pat"], A.Sym("cur"), env):
+                raise A.Cannot("loop pattern")
+            try:
+                J.ev(loop["body"], env)
+            except A._Continue:
+                pass
+            return acc
+    else:
+        res.cannot(rule, fn, "merge", "the final pass over the scanned tokens (a fold or a `for` over the token list) was not found", loc)
+        return
+    try:
+        outs = I.explore(run)
+    except A.Cannot as e:
+        res.cannot(rule, fn, "merge", str(e), loc)
+        return
+    n = 0
+    for o in outs:
+        d = o["decisions"]
+        known = True
+        has_last = last_text = cur_text = None
+        for k, v in d.items():
+            if k == "is_some(ACC.last())":
+                has_last = v
+            elif k in ("eq(ACC.last().some.kind, TokenKind::Text)", "eq(TokenKind::Text, ACC.last().some.kind)"):
+                last_text = v
+            elif k in ("eq(TokenKind::Text, cur.kind)", "eq(cur.kind, TokenKind::Text)"):
+                cur_text = v
+            elif k in ("variant(ACC.last().some.kind)", "variant(cur.kind)"):
+                t_ = str(v).endswith("Text")
+                if "cur" in k:
+                    cur_text = t_
+                else:
+                    last_text = t_
+            else:
+                known = False
+        label = "last=%s,last_text=%s,cur_text=%s" % (has_last, last_text, cur_text)
+        if not known:
+            res.add(Finding(rule, fn, "merge:" + label, "whether a token is joined to its predecessor depends on something other than the two kinds: %s" % {k: v for k, v in d.items()}, loc=loc))
+            continue
+        join = has_last is True and last_text is True and cur_text is True
+        no_join = has_last is False or last_text is False or cur_text is False
+        v = o["value"]
+        items = [A.show(x) for x in v.items] if isinstance(v, A.VecV) and v.base is not None else None
+        asg = {str(e[1]): A.show(e[2]) for e in o["effects"] if e[0] == "assign_field"}
+        want = {"ACC.last().some.value": "source[ACC.last().some.byte_start..cur.byte_end]", "ACC.last().some.end": "cur.end", "ACC.last().some.byte_end": "cur.byte_end"}
+        if (o["exit"] != "fall" and not (o["exit"] == "return" and len(folds) == 1)) or items is None:      # (`return acc` ends a fold step like its tail does)
+            res.add(Finding(rule, fn, "merge:" + label, "one step of the merging pass does not yield the accumulated list (%s)" % A.show(v)[:80], loc=loc))
+        elif join and (items != [] or asg != want):
+            res.add(Finding(rule, fn, "merge:" + label, "a text token following a text token must be joined to it (text, character end and byte end extended to the later token's, nothing "
+                            "appended); the code appends %s and assigns %s" % (items, asg), loc=loc))
+        elif no_join and (items != ["cur"] or asg):
+            res.add(Finding(rule, fn, "merge:" + label, "a token that is not a text token following a text token must be appended unchanged; the code appends %s and assigns %s" % (items, asg), loc=loc))
+        elif not (join or no_join):
+            res.add(Finding(rule, fn, "merge:" + label, "undecided joining condition", loc=loc))
+        else:
+            n += 1
+            res.holds(rule, fn, "merge:" + label)
+    res.floor(rule, "paths of one merging step", n, 3)
+    # the last token (up to the end of the source) reaches the list that is merged
+    def is_last_token(e):
+        return any(x.get("k") == "struct" and (x["res"].get("path") or "").endswith("Token") and
+                   any(f_["name"] == "byte_end" and T.render(f_["e"]) == "source.len()" for f_ in x["fields"]) for x in T.nodes(e))
+    lets = {s_["pat"]["id"]: s_ for s_ in T.nodes(b["tree"], "let") if s_["pat"].get("p") == "bind" and s_.get("init") is not None}
+    okp = False
+    npush = 0
+    for x, par in T.walk(b["tree"]):
+        if not (x.get("k") == "mcall" and x["name"] in ("push", "extend") and T.local_of(T.peel_ref(x["recv"])) == src) or any(q.get("k") in ("closure", "loop", "for") for q in par):
+            continue
+        npush += 1
+        arg = T.peel(x["args"][0])
+        if is_last_token(arg):
+            okp = True
+        v = T.local_of(arg)
+        if v is not None:
+            if v in lets and is_last_token(lets[v]["init"]):
+                okp = True
+            for q in par:
+                lc = T.peel(q["cond"]) if q.get("k") == "if" else {}
+                if lc.get("k") == "let_cond" and any(p_.get("p") == "bind" and p_["id"] == v for p_ in T.pat_nodes(lc["pat"])):
+                    srcl = T.local_of(T.peel(lc["e"]))
+                    if is_last_token(lc["e"]) or (srcl in lets and is_last_token(lets[srcl]["init"])):
+                        okp = True
+    if okp:
+        res.holds(rule, fn, "last-token-appended")
+    else:
+        res.add(Finding(rule, fn, "last-token-appended", "the token that runs to the end of the source (`byte_end: source.len()`) is not appended to the scanned tokens before the "
+                        "merging pass (%d append sites outside the scan)" % npush, loc=loc))
+
+
+def every_piece_kept(ctx, res, rule):
+    """`contiguous .. texts concatenated reproduce the source`: a piece of text cut inside the scan is dropped only if it is
+    empty - the guard in front of its token is exactly `start < end` in one of its spellings, not something stronger - and
+    tokens are appended at the end of the list (`push`), never inserted elsewhere."""
+    P = ctx.lib
+    b = P.fn("tokenizer::tokenize")
+    fn = fshort(b)
+    n_guard = 0
+    for n, parents in T.walk(b["tree"]):
+        if n.get("k") != "struct" or not T.strip_generics(n["res"].get("path") or "").endswith("tokenizer::Token"):
+            continue
+        ins = [q for q in parents if q.get("k") == "mcall" and q["name"] in ("insert", "push_front", "splice") and any(x is n for a_ in q["args"] for x in T.nodes(a_))]
+        if ins:
+            res.add(Finding(rule, fn, "append-only:" + ins[0]["name"], "a token is placed by `%s`, not appended: tokens are no longer in source order" % T.render(ins[0])[:60], loc=T.loc(n)))
+        else:
+            res.holds(rule, fn, "append-only:%d" % (n.get("sp") or [0, 0])[1] if False else "append-only")
+        f = {x["name"]: x["e"] for x in n["fields"]}
+        v = T.peel_ref(f.get("value") or {})
+        if not (v.get("k") == "index" and T.peel(v["idx"]).get("k") == "struct"):
+            continue
+        rf = {x["name"]: T.render(x["e"]) for x in T.peel(v["idx"])["fields"]}
+        if "start" not in rf or "end" not in rf:
+            continue
+        a, e = rf["start"], rf["end"]
+        ok_forms = {"((%s - %s) > 0)" % (e, a), "(%s > %s)" % (e, a), "(%s < %s)" % (a, e), "(%s != %s)" % (a, e), "(%s != %s)" % (e, a), "!(%s == %s)" % (a, e), "!(%s == %s)" % (e, a),
+                    "((%s - %s) >= 1)" % (e, a), "((%s - %s) != 0)" % (e, a), "(0 < (%s - %s))" % (e, a), "(0 != (%s - %s))" % (e, a)}
+        guards = [q for q in parents if q.get("k") == "if" and any(x is n for x in T.nodes(q["then"])) and a in T.render(q["cond"]) and e in T.render(q["cond"])]
+        if not guards:
+            continue        # guarded in another way (R6 proves non-emptiness from whatever dominates)
+        g = T.render(guards[-1]["cond"])
+        if g in ok_forms:
+            n_guard += 1
+            res.holds(rule, fn, "kept-unless-empty:" + g)
+        else:
+            res.add(Finding(rule, fn, "kept-unless-empty:" + g[:60], "the piece `%s` becomes a token only under `%s`, which is not one of the spellings of %s < %s: a non-empty piece "
+                            "of the source could be dropped" % (T.render(v)[:50], g[:80], a, e), loc=T.loc(guards[-1])))
+    res.floor(rule, "guards of pieces cut inside the scan", n_guard, 1)
 
 
 def non_empty_tokens(ctx, res, rule):
